@@ -60,7 +60,7 @@ func main() {
 	if v := os.Getenv("C12_FIRST"); v != "" { // replay aid: run histories first..first+histories-1
 		fmt.Sscan(v, &first)
 	}
-	workers := 10
+	workers := run.N(10, 12)
 	vlib.Parallel(histories, workers, func(k int) {
 		i := first + k
 		base := fmt.Sprintf("%s/h%d", tmp, i)
@@ -93,6 +93,7 @@ func main() {
 		}
 	})
 	run.Assume("script validity of generated inputs is ground truth by construction (chainsim signer); confirmed state = the node's own UTXO dump; tx fields, ids, sizes come from /verif/ref/reftx")
+	run.Assume("transactions whose script fails by construction are submitted through the untrusted network path only: the trusted-peer and the local path skip script verification by design, and chain.TrustedTxChecker then lets a block with such a tx pass")
 	run.Assume("64-bit index collisions (BIDX / UIdx truncations of txids) are not generated")
 	run.Assume("expiry is reached by back-dating Lastseen and the (unexported, go:linkname'd) next-expiry time; no other internal of txpool is written by the harness except Lastseen")
 	run.Finish("each evaluation = one invariant walk over the live pool (after every submission / block / tick / reload of a random history); deciding oracle = walker recomputation from exported maps + UTXO dump + reftx; listing order and a dry-run block (CheckBlock + ProcessBlockTransactions without the mempool shortcut) at the configured cadence; distinct_nontrivial = distinct (step kind, path, outcome, pool-size bucket, parents bucket) tuples",
